@@ -20,6 +20,7 @@ func ids(n int) []uint64 {
 
 type feat struct {
 	async, prevote, checkq, stepdown bool
+	nofwd, noccv                     bool // DisableProposalForwarding, DisableConfChangeValidation
 }
 
 func (f feat) tag() string {
@@ -36,12 +37,19 @@ func (f feat) tag() string {
 	if f.stepdown {
 		s += "+sd"
 	}
+	if f.nofwd {
+		s += "+nofwd"
+	}
+	if f.noccv {
+		s += "+noccv"
+	}
 	return s
 }
 
 func (f feat) cfg() NodeCfg {
 	c := DefaultNodeCfg()
 	c.Async, c.PreVote, c.CheckQuorum, c.StepDownOnRemoval = f.async, f.prevote, f.checkq, f.stepdown
+	c.DisableForwarding, c.DisableCCValidation = f.nofwd, f.noccv
 	return c
 }
 
@@ -83,6 +91,7 @@ func appendStep(i int) Event       { return Event{Kind: EvAppend, Node: uint8(i)
 func pauseReady(i, on int) Event   { return Event{Kind: EvPauseReady, Node: uint8(i), Arg: uint16(on)} }
 func holdFrom(i int) Event         { return Event{Kind: EvHoldFrom, Node: uint8(i)} }
 func flush() Event                 { return Event{Kind: EvFlush} }
+func sendSnap(i, j int) Event      { return Event{Kind: EvSendSnap, Node: uint8(i), Peer: uint8(j)} }
 func pauseAppend(i, on int) Event  { return Event{Kind: EvPauseAppend, Node: uint8(i), Arg: uint16(on)} }
 func confMixed(i, k, n int) Event  { return Event{Kind: EvProposeConf, Node: uint8(i), Peer: uint8(n), Arg: uint16(k)} }
 func confMixedLast(i, k, n int) Event {
@@ -208,6 +217,29 @@ var defaultFaults = []int{int(BDrop), 1, int(BDup), 1, int(BCrash), 1, int(BCamp
 func scriptSnapshot() []Event {
 	return seq(camp(1), prop(1), isolate(3), prop(1), prop(1), compact(1, 0), heal(), prop(1), reportSnap(1, 3, 0), compact(3, 0), prop(1),
 		isolate(2), prop(1), compact(1, 1), camp(1), heal(), prop(1))
+}
+
+// scriptSnapshotUnreachable: the snapshot for node 3 travels slowly; meanwhile the transport
+// reports node 3 unreachable and the leader keeps accepting proposals.
+func scriptSnapshotUnreachable() []Event {
+	return seq(camp(1), prop(1), isolate(3), prop(1), prop(1), compact(1, 0), heal(), prop(1), unreach(1, 3), prop(1), prop(1), unreach(1, 3), prop(1))
+}
+
+// scriptManualSnapshotDivergent: node 3 led term 2 and holds an uncommitted tail of that
+// term; the leader of term 3 (whose own tail is not yet quorum-backed) has its application ship
+// the snapshot its storage holds to node 3 – a snapshot behind node 3's commit index, which
+// node 3 ignores and answers with its commit index.
+func scriptManualSnapshotDivergent() []Event {
+	return seq(camp(1), prop(1), prop(1), compact(2, 0), camp(3), isolate(3), prop(3), prop(3), camp(2), isolate(1), prop(2), prop(2),
+		heal(), isolate(1), sendSnap(2, 3), prop(2), heal(), prop(2))
+}
+
+// scriptCompactBeforeSend: the leader has built a catch-up MsgApp from its storage (stepped
+// rejection, no Ready yet) when its application compacts the log inside the range the message
+// carries; only then does the application call Ready and serialise the message. Explored by
+// replay (NoClone), so the message really shares memory with the storage.
+func scriptCompactBeforeSend() []Event {
+	return seq(camp(1), prop(1), isolate(3), prop(1), prop(1), prop(1), heal(), holdFrom(3), prop(1), pauseReady(1, 1), flush(), compact(1, 0), pauseReady(1, 0), prop(1))
 }
 
 func scriptSnapshotRestart() []Event {
@@ -372,6 +404,21 @@ func scriptReplaceTwo() []Event {
 func replaceTwoSc(f feat, k int, budgets ...int) *Scenario {
 	s := ddScn("replace-two", 5, ids(3), f, scriptReplaceTwo(), k, budgets...)
 	s.ConfMenu = []ConfSpec{{Transition: pb.ConfChangeTransitionJointExplicit, Changes: "v4 v5 r2 r3"}, ccLeave}
+	return s
+}
+
+// scriptAutoLeaveDuringTransfer: a leadership transfer to a cut-off node is pending while the
+// leader applies an auto-leave joint change and the entry behind it (the automatic leave
+// proposal is refused during a transfer); the transfer then times out and the leader has to
+// retry the leave on a later apply.
+func scriptAutoLeaveDuringTransfer() []Event {
+	return seq(ticks(1, 3), prop(1), cut(1, 3), holdFrom(2), conf(1, 0), prop(1), xfer(1, 3), flush(), ticks(1, 4), prop(1), heal(), prop(1), prop(1))
+}
+
+func autoLeaveTransferSc(f feat, k int, budgets ...int) *Scenario {
+	s := tickSc("autoleave-during-transfer", 3, f, scriptAutoLeaveDuringTransfer(), k, budgets...)
+	s.ConfMenu = []ConfSpec{{Transition: pb.ConfChangeTransitionJointImplicit, Changes: "l3"}}
+	s.TickNodes = []uint8{1}
 	return s
 }
 
@@ -542,6 +589,15 @@ func scriptCheckQuorumLease() []Event {
 	return seq(ticks(1, 3), prop(1), roundTicks(3, 1), camp(3), isolate(1), ticks(1, 3), ticks(1, 3), ticks(2, 4), heal(), roundTicks(3, 2), prop(2), xfer(2, 3), roundTicks(3, 2))
 }
 
+// scriptCheckQuorumReports: the leader is cut off; its transport keeps reporting the peers
+// unreachable (and a snapshot failure, and a transfer request arrives) – local reports about a
+// peer are not contact with that peer.
+func scriptCheckQuorumReports() []Event {
+	return seq(ticks(1, 3), prop(1), roundTicks(3, 1), isolate(1),
+		ticks(1, 2), unreach(1, 2), unreach(1, 3), ticks(1, 2), unreach(1, 2), reportSnap(1, 3, 1), ticks(1, 2), xfer(1, 2), unreach(1, 3), ticks(1, 2), unreach(1, 2), unreach(1, 3), ticks(1, 2),
+		ticks(2, 4), heal(), roundTicks(3, 2), prop(2))
+}
+
 // ---------------------------------------------------------------- catalogue
 
 func job(prop, tier string, strategy string, sc *Scenario, weight int, mons ...string) *Job {
@@ -598,6 +654,11 @@ func poolSafety(tier string) (p pool) {
 		)
 		p.bfs = append(p.bfs, split(bfsReplicate(f, 2)))
 	}
+	// proposals at followers with forwarding disabled (refused, never appended)
+	for _, f := range []feat{{nofwd: true}, {nofwd: true, async: true}} {
+		p.dd = append(p.dd, ddScn("no-forwarding", 3, ids(3), f,
+			seq(camp(1), prop(2), prop(1), prop(3), isolate(1), camp(2), prop(1), prop(3), prop(2), heal(), prop(1), prop(3), prop(2)), k, defaultFaults...))
+	}
 	// real aliasing between the unstable log and batches already handed out (replay-based, no clones)
 	for steps := 3; steps <= 6; steps++ {
 		sb := ddScn(fmt.Sprintf("stale-batch%d", steps), 3, ids(3), asyncF, scriptStaleBatchN(steps), k, int(BDrop), 1, int(BDup), 1, int(BCrash), 1)
@@ -627,6 +688,9 @@ func poolElection(tier string) (p pool) {
 	for _, f := range []feat{syncF, pvF, asyncF} {
 		p.dd = append(p.dd, ddScn("vote-only-crash", 3, ids(3), f, scriptVoteOnlyCrash(), devK(tier), defaultFaults...))
 	}
+	for _, f := range []feat{syncF, asyncF, pvF} {
+		p.dd = append(p.dd, ddScn("transfer-vs-election", 3, ids(3), f, scriptTransferVsElection(), devK(tier), defaultFaults...))
+	}
 	for _, f := range []feat{syncF, pvcqF} {
 		p.dd = append(p.dd, ddScn("transfer-twice", 3, ids(3), f, scriptTransferTwice(), devK(tier), defaultFaults...),
 			confSc("transfer-to-removed", f, scriptTransferToRemoved(), devK(tier), defaultFaults...))
@@ -646,6 +710,13 @@ func scriptTransferTwice() []Event {
 // acknowledgements are held back until the transfer has started).
 func scriptTransferToRemoved() []Event {
 	return seq(camp(1), prop(1), isolate(3), prop(1), holdFrom(2), conf(1, mRemove3), xfer(1, 3), flush(), prop(1), heal(), prop(1), camp(2), prop(2))
+}
+
+// scriptTransferVsElection: the MsgTimeoutNow of a leadership transfer to node 2 is held back
+// while node 3 campaigns for the next term on its own and collects the old leader's vote; the
+// transferee then campaigns for the same term with the transfer context.
+func scriptTransferVsElection() []Event {
+	return seq(camp(1), prop(1), cut(2, 3), holdFrom(1), xfer(1, 2), camp(3), flush(), prop(3), prop(2), heal(), prop(3), prop(2))
 }
 
 // scriptVoteOnlyCrash: a stale candidate and an up-to-date candidate campaign in the
@@ -700,9 +771,9 @@ func split(s *Scenario) *Scenario {
 
 func poolSnapshot(tier string) (p pool) {
 	k := devK(tier)
-	fl := append([]int{int(BSnapFail), 1, int(BCompact), 1}, defaultFaults...)
+	fl := append([]int{int(BSnapFail), 1, int(BCompact), 1, int(BSendSnap), 1}, defaultFaults...)
 	for _, f := range []feat{syncF, asyncF} {
-		p.bfs = append(p.bfs, bfsSnapshot(f), bfsSnapshot(f, int(BDup), 1), bfsSnapshot(f, int(BCrash), 1))
+		p.bfs = append(p.bfs, bfsSnapshot(f), bfsSnapshot(f, int(BDup), 1), bfsSnapshot(f, int(BCrash), 1), bfsSnapshot(f, int(BSendSnap), 1))
 		p.dd = append(p.dd,
 			ddScn("snapshot", 3, ids(3), f, scriptSnapshot(), k, fl...),
 			ddScn("snapshot-restart", 3, ids(3), f, scriptSnapshotRestart(), k, fl...),
@@ -724,6 +795,12 @@ func poolSnapshot(tier string) (p pool) {
 			pg.PropSizes = []int{30, 1, 1, 1}
 			p.dd = append(p.dd, pg)
 		}
+		{
+			cb := ddScn("compact-before-send", 3, ids(3), f, scriptCompactBeforeSend(), k, int(BDrop), 1, int(BDup), 1)
+			cb.NoClone = true
+			p.dd = append(p.dd, cb)
+		}
+		p.dd = append(p.dd, ddScn("manual-snapshot-divergent", 3, ids(3), f, scriptManualSnapshotDivergent(), k, fl...))
 		{
 			se := tickSnap(ddScn("snapshot+entries", 3, ids(3), f, scriptSnapshotPlusEntries(), k, int(BDrop), 1, int(BDup), 1, int(BCrash), 1))
 			se.SlowSnap = true
@@ -751,8 +828,16 @@ func poolConf(tier string) (p pool) {
 			confSc("conf+failover", f, scriptConfFailover(), k, defaultFaults...),
 		)
 	}
+	// the last voter is asked to remove itself: the application cancels the committed change
+	for _, f := range []feat{syncF, asyncF} {
+		p.dd = append(p.dd, confSc("remove-last-voter", f, seq(camp(1), conf(1, mRemove3), prop(1), conf(1, mV1Remove2), prop(1), conf(1, mRemove1), prop(1), conf(1, mAddVoter4), prop(1)), k, defaultFaults...))
+	}
+	// validation of conf-change proposals disabled; the application itself proposes one change at a time
+	p.dd = append(p.dd, confSc("simple-conf", feat{noccv: true}, scriptSimpleConf(), k, defaultFaults...),
+		confSc("joint", feat{noccv: true, async: true}, scriptJoint(), k, defaultFaults...))
 	for _, f := range []feat{syncF, asyncF} {
 		p.dd = append(p.dd, replaceTwoSc(f, k, defaultFaults...))
+		p.dd = append(p.dd, autoLeaveTransferSc(f, k, int(BTick), 1, int(BDrop), 1, int(BDup), 1))
 	}
 	{
 		cl := ddScn("conf-lag", 3, ids(3), asyncF, scriptConfLag(), k, defaultFaults...)
@@ -842,6 +927,11 @@ func poolFlow(tier string) (p pool) {
 			p.dd = append(p.dd, s)
 		}
 	}
+	for _, f := range []feat{syncF, asyncF} {
+		su := tickSnap(ddScn("snapshot-unreachable", 3, ids(3), f, scriptSnapshotUnreachable(), k, defaultFaults...))
+		su.SlowSnap = true
+		p.dd = append(p.dd, su)
+	}
 	// uneven entry sizes across the stable/unstable boundary of the leader's log
 	{
 		c := flowCfg(asyncF, 8, 40, 0, 0)
@@ -861,6 +951,9 @@ func poolTick(tier string) (p pool) {
 			tickSc("prevote-rejoin", 3, f, scriptPrevoteRejoin(), k, tb...),
 			tickSc("checkquorum-lease", 3, f, scriptCheckQuorumLease(), k, tb...),
 		)
+	}
+	for _, f := range []feat{cqF, pvcqF} {
+		p.dd = append(p.dd, tickSc("checkquorum-reports", 3, f, scriptCheckQuorumReports(), k, tb...))
 	}
 	for _, f := range []feat{cqF, pvcqF} {
 		sl := tickSc("snap-lease", 3, f, scriptSnapLease(), k, tb...)
